@@ -16,7 +16,7 @@ TOTAL = {'C01', 'C07', 'C08', 'C09', 'C10', 'C11', 'C12', 'C13', 'C14', 'C16', '
 NATIVE_BASIC = {'c_push_back', 'c_push_front', 'c_try_push_back', 'c_try_push_front', 'c_pop_back', 'c_pop_front', 'c_remove', 'c_swap',
                 'c_swap_remove_back', 'c_swap_remove_front', 'c_truncate_back', 'c_truncate_front', 'c_clear', 'c_make_contiguous', 'c_get', 'c_get_mut',
                 'c_as_slices', 'c_iter_views', 'c_ops_plain', 'c_zst'}
-NATIVE_SIX = {'c_fill_spare', 'c_fill', 'c_fill_with', 'c_extend', 'c_from_iter', 'c_extend_from_slice', 'c_extend_ref', 'c_clone', 'c_into_iter',
+NATIVE_SIX = {'c_iter_nth', 'c_fill_spare', 'c_fill', 'c_fill_with', 'c_extend', 'c_from_iter', 'c_extend_from_slice', 'c_extend_ref', 'c_clone', 'c_into_iter',
               'c_iter_script', 'c_iter_mut_script', 'c_drain', 'c_drain_leak', 'c_drain_plain', 'c_io_write', 'c_io_read', 'c_io_bufread', 'c_hash_ord'}
 
 Q = [0, 1, 3]
@@ -36,7 +36,7 @@ def H(fn, props, ns_q=Q, ns_t=T, unwind=lambda n: n + 4, **kw):
     if 'native' in e:
         e['ns']['native'] = e.pop('native')
     elif fn in NATIVE_BASIC:
-        e['ns']['native'] = [6, 7, 8]
+        e['ns']['native'] = [6, 7, 8, 12, 15]
     elif fn in NATIVE_SIX:
         e['ns']['native'] = [6]
     if 'untagged' not in e:
@@ -104,6 +104,7 @@ HARNESSES += [
     # iterator protocol, ranges, documented panics
     H('c_iter_script', 'C04 C07 C08 C11'),
     H('c_iter_mut_script', 'C04 C07 C08 C11'),
+    H('c_iter_nth', 'C08 C09 C11', unwind=lambda n: n + 5),
     H('c_range_must_panic', 'C11', untagged='', expect_panic=True),
     H('c_index_must_panic', 'C11', untagged='', expect_panic=True),
     # drain
